@@ -116,7 +116,7 @@ impl<S: RecvStream, B> FrameStream<S, B> {
 
 //@extract h3/src/frame.rs :: impl FrameStream<S, B> :: fn poll_next
 //@external_body_if ASSUME_UNIT_frames
-//@tag C02 C03 C06
+//@tag C02 C03 C04 C06
 //@on R25
 //@attr #[verifier::exec_allows_no_decreases_clause]
 //@ret r
@@ -239,6 +239,8 @@ impl<S: RecvStream, B> FrameStream<S, B> {
             (r matches Poll::Ready(Err(FrameStreamError::UnexpectedEnd))) ==> final(self).stream.eos && old(self).remaining_data > 0
                 && final(self).since(&*old(self)).len() < old(self).remaining_data, // [C02.data.truncated]
             (r matches Poll::Ready(Err(FrameStreamError::Proto(_)))) ==> false,
+            // a transport error (peer RESET, connection error) is handed on as it is — it is not a truncated frame
+            (r matches Poll::Ready(Err(FrameStreamError::UnexpectedEnd))) ==> final(self).stream.stream.finished(), // [C07.reset.passthrough] [C02.data.truncated.fin]
             // waiting only while the peer has not finished, after the transport answered Pending
             r is Pending ==> !final(self).stream.eos && final(self).stream.stream.pendings() > old(self).stream.stream.pendings()
                 && final(self).remaining_data == old(self).remaining_data && final(self).unread() == old(self).unread(), // [C06.data.nowait]
